@@ -1014,6 +1014,29 @@ impl Net {
 					}
 				} else { did = false; }
 			},
+			"signer_off" | "signer_on" => {
+				// an asynchronous (remote) signer: the named operation is unavailable for a while; what needs it is
+				// held by the library and comes out, in protocol order, once the signer is back
+				let i = op["node"].as_u64().unwrap() as usize;
+				let j = op["peer"].as_u64().unwrap() as usize;
+				let what = op["what"].as_str().unwrap_or("sign");
+				use lightning::util::test_channel_signer::SignerOp;
+				let sop = match what { "point" => SignerOp::GetPerCommitmentPoint, "secret" => SignerOp::ReleaseCommitmentSecret, _ => SignerOp::SignCounterpartyCommitment };
+				if i < n && j < n && i != j && self.chan_ids.contains_key(&(i.min(j), i.max(j))) {
+					let cid = self.chan_ids[&(i.min(j), i.max(j))];
+					let pk = self.nodes[j].node.get_our_node_id();
+					if self.nodes[i].node.list_channels().iter().any(|x| x.channel_id == cid) {
+						let c = self.chan(&cid);
+						self.ev(json!({"ev":"signer","node":i,"chan":c,"what":what,"on":name == "signer_on"}));
+						if name == "signer_off" { self.nodes[i].verif_disable_channel_signer_op(&pk, &cid, sop); }
+						else {
+							self.nodes[i].enable_channel_signer_op(&pk, &cid, sop);
+							self.nodes[i].node.signer_unblocked(Some((pk, cid)));
+						}
+						self.drain();
+					} else { did = false; }
+				} else { did = false; }
+			},
 			"open_batch" => {
 				// one funding transaction for several new channels of node a
 				let a = op["a"].as_u64().unwrap() as usize;
